@@ -332,6 +332,20 @@ func (wk *worker) runCase(c *Case) (res CaseResult) {
 		count("response-with-errors")
 	}
 
+	// ---- apifu's own node / nodes fields
+	if !c.WS && len(c.Tree) > 0 {
+		if msg := nodeOracle(c.Tree, run.body); msg != "" {
+			fail("property:response", "", "%s (response %s)", msg, run.body)
+		} else if msg := nodeOracle(c.Tree, ref.body); msg != "" {
+			fail("property:response", "", "all-synchronous run: %s (response %s)", msg, ref.body)
+		}
+		for _, sl := range c.Tree {
+			if sl.Name == "node" {
+				count("node-lookup-through-apifu-root-field")
+				break
+			}
+		}
+	}
 	// ---- correspondence with the Lean model (acceptor)
 	if wk.model != nil && w.execs > 1 && !hookMode {
 		count("model-not-consulted(several executions share one apiRequest)")
